@@ -123,13 +123,22 @@ pub fn innermost_physis_frame_now() -> String {
 }
 
 /// Message with every number (decimal or hex, with trailing alphanumerics) replaced by N,
-/// whitespace collapsed, cut at 56 characters: stable across inputs that reach the same site.
+/// back-quoted values by _, whitespace collapsed, cut at 34 characters: stable across inputs that reach the same site.
 pub fn normalise_message(m: &str) -> String {
     let mut out = String::new();
     let mut chars = m.chars().peekable();
     let mut last_space = false;
     while let Some(c) = chars.next() {
-        if c.is_ascii_digit() {
+        if c == '`' {
+            // quoted values vary with the input
+            for n in chars.by_ref() {
+                if n == '`' {
+                    break;
+                }
+            }
+            out.push('_');
+            last_space = false;
+        } else if c.is_ascii_digit() {
             while let Some(n) = chars.peek() {
                 if n.is_ascii_alphanumeric() {
                     chars.next();
@@ -148,7 +157,7 @@ pub fn normalise_message(m: &str) -> String {
             out.push(c);
             last_space = false;
         }
-        if out.len() >= 56 {
+        if out.len() >= 34 {
             break;
         }
     }
